@@ -660,3 +660,22 @@ def wrappers_pass_the_limits_on(ctx):
                 bad = p
         ctx.check(bad is None, f.qualname + '#limits', 'SetEvaluationLimits(maxiter, maxfun) on all %d paths to Solve' % r['paths'],
                   '%s reaches Solve without handing its maxiter / maxfun to the solver (path %s)' % (f.qualname, bad.describe(5) if bad else ''), f, f.node)
+
+
+@rule('C05.l', min_instances=3)
+def evaluation_count_is_cumulative(ctx):
+    """the count Terminated compares with the evaluation limit is the total over all Solve calls: every _decorate_objective rebinds the counter cell to wrap_function(..., start=<previous count>) (a counter that restarts makes a solver at its limit run on)"""
+    from .c04 import rebinding_carries
+    n = 0
+    for anchor in ('mystic.abstract_solver:AbstractSolver._decorate_objective',
+                   'mystic.differential_evolution:DifferentialEvolutionSolver._decorate_objective',
+                   'mystic.scipy_optimize:NelderMeadSimplexSolver._decorate_objective'):
+        f = ctx.func(anchor)
+        stores = [enclosing_stmt(x) for x in walk_no_nested(f.node)
+                  if isinstance(x, ast.Attribute) and x.attr == '_fcalls' and isinstance(x.ctx, ast.Store)]
+        ctx.need(stores, '%s no longer binds the counter cell' % f.qualname)
+        for st in stores:
+            n += 1
+            ctx.check(rebinding_carries(f, st), f.qualname + '#counter', 'counter cell continues from self._fcalls[0]',
+                      're-decorating the objective restarts the evaluation counter, so the evaluation limit no longer bounds the total', f, st)
+    ctx.need(n >= 3, 'expected 3 counter rebindings')
